@@ -249,6 +249,10 @@ impl Interp {
 		self.db.as_ref().expect("db open")
 	}
 
+	pub fn is_open(&self) -> bool {
+		self.db.is_some()
+	}
+
 	pub fn close(&mut self) {
 		self.iters.clear();
 		if let Some(l) = self.locked.take() {
